@@ -59,6 +59,7 @@ func (h HelperContext) BlockWith(hc hctx.Context) (string, error) {
 	// evaluator that defined it is busy or done
 	ev := *h.compiler
 	ev.ctx = ctx
+	ev.recv = nil
 
 	i, err := ev.evalBlockStatement(h.block)
 	if err != nil {
